@@ -354,7 +354,7 @@ async fn run_op(env: Arc<Env>, task: String, op: Value) {
         None => rec(&task, "ret", format!("\"op\":\"recv_mp\",\"sock\":\"{}\",\"res\":\"cancelled\",\"t\":{}", sname, ms(&env))),
         Some(Ok(fr)) => {
           let (ids, ok, sizes, mores) = describe_frames(&fr);
-          let first_hex = fr.first().map(|f| rzmq::verif::hex_prefix(f.data().unwrap_or(&[]), 12)).unwrap_or_default();
+          let first_hex = fr.first().map(|f| rzmq::verif::hex_prefix(f.data().unwrap_or(&[]), 300)).unwrap_or_default();
           rec(&task, "ret", format!("\"op\":\"recv_mp\",\"sock\":\"{}\",\"res\":\"ok\",\"ids\":{:?},\"intact\":{},\"sizes\":{:?},\"mores\":{:?},\"hex\":\"{}\",\"dur\":{},\"t\":{}", sname, ids, ok, sizes, mores, first_hex, t1.elapsed().as_millis(), ms(&env)));
         }
         Some(Err(e)) => rec(&task, "ret", format!("\"op\":\"recv_mp\",\"sock\":\"{}\",\"res\":\"err:{}\",\"dur\":{},\"t\":{}", sname, err_kind(&e), t1.elapsed().as_millis(), ms(&env))),
@@ -416,6 +416,36 @@ async fn run_op(env: Arc<Env>, task: String, op: Value) {
         }
         if pace_us > 0 {
           tokio::time::sleep(Duration::from_micros(pace_us)).await;
+        }
+      }
+    }
+    "echo_n" => {
+      // ROUTER-style echo: receive a multipart message and send the very same frames back
+      // (first frame = identity of the connection it came from). One record per message.
+      let s = sock.expect("sock");
+      let n = op["n"].as_u64().unwrap_or(1);
+      for _ in 0..n {
+        match with_timeout(tmo, s.recv_multipart()).await {
+          Ok(fr) => {
+            let (ids, ok, sizes, mores) = describe_frames(&fr);
+            let first_hex = fr.first().map(|f| rzmq::verif::hex_prefix(f.data().unwrap_or(&[]), 300)).unwrap_or_default();
+            rec(&task, "ret", format!("\"op\":\"recv_mp\",\"sock\":\"{}\",\"res\":\"ok\",\"ids\":{:?},\"intact\":{},\"sizes\":{:?},\"mores\":{:?},\"hex\":\"{}\",\"t\":{}", sname, ids, ok, sizes, mores, first_hex, ms(&env)));
+            let n_fr = fr.len();
+            let mut back: Vec<Msg> = Vec::new();
+            for (i, f) in fr.into_iter().enumerate() {
+              let mut m = Msg::from_vec(f.data().unwrap_or(&[]).to_vec());
+              if i + 1 < n_fr {
+                m.set_flags(MsgFlags::MORE);
+              }
+              back.push(m);
+            }
+            let r = with_timeout(tmo, s.send_multipart(back)).await;
+            rec(&task, "ret", format!("\"op\":\"send_mp\",\"sock\":\"{}\",\"mid\":\"echo\",\"to\":\"{}\",\"res\":\"{}\",\"t\":{}", sname, first_hex, res_str(&r), ms(&env)));
+          }
+          Err(e) => {
+            rec(&task, "ret", format!("\"op\":\"recv_mp\",\"sock\":\"{}\",\"res\":\"err:{}\",\"t\":{}", sname, err_kind(&e), ms(&env)));
+            break;
+          }
         }
       }
     }
